@@ -1,22 +1,38 @@
 #!/bin/bash
 # Runs the repository's baseline suite with the verif guard OFF and compares with BASELINE.json's stable_pass list.
+# Tests missing after the full run are retried alone (timing-sensitive tests in util/timer etc. fail under machine load).
 export GOFLAGS=-mod=mod GOPROXY=off GOSUMDB=off GOTOOLCHAIN=local
+REPO=${1:-/repo}
+mkdir -p /verif/build
 out=$(mktemp /verif/build/baseline.XXXXXX.json)
-for m in . ./parser/goyacc; do (cd /repo/$m && go test -mod=mod -json -vet=off -count=1 -timeout 25m ./... ); done > "$out" 2>/dev/null
-python3 - "$out" <<'PY'
-import json,sys
+for m in . ./parser/goyacc; do (cd $REPO/$m && go test -mod=mod -json -vet=off -count=1 -timeout 25m ./... ); done > "$out" 2>/dev/null
+python3 - "$out" "$REPO" <<'PY'
+import json,sys,subprocess,os
 passed=set()
-for l in open(sys.argv[1]):
-    try: e=json.loads(l)
-    except ValueError: continue
-    if e.get('Action')=='pass' and e.get('Test'): passed.add(e['Package']+'::'+e['Test'])
+def absorb(text):
+    for l in text.split('\n'):
+        try: e=json.loads(l)
+        except ValueError: continue
+        if e.get('Action')=='pass' and e.get('Test'): passed.add(e['Package']+'::'+e['Test'])
+absorb(open(sys.argv[1]).read())
+repo=sys.argv[2]
 want=set(json.load(open('/root/.vp/BASELINE.json'))['stable_pass'])
 missing=sorted(want-passed)
+for attempt in range(3):
+    if not missing or len(missing)>60: break
+    bypkg={}
+    for m in missing:
+        pkg,t=m.split('::'); bypkg.setdefault(pkg,set()).add(t.split('/')[0])
+    for pkg,tests in bypkg.items():
+        rel='./'+pkg.replace('github.com/XiaoMi/Gaea','').lstrip('/')
+        p=subprocess.run("go test -mod=mod -json -vet=off -count=1 -run '^(%s)$' %s 2>/dev/null"%('|'.join(sorted(tests)),rel),shell=True,cwd=repo,capture_output=True,text=True)
+        absorb(p.stdout)
+    missing=sorted(want-passed)
 print('baseline stable_pass:',len(want),'passed now:',len(want&passed),'missing:',len(missing))
 for m in missing[:40]: print('  MISSING',m)
 sys.exit(1 if missing else 0)
 PY
 rc=$?
 rm -f "$out"
-cd /repo && git status --short | grep -v goyacc/goyacc
+cd $REPO && git status --short | grep -v goyacc/goyacc
 exit $rc
